@@ -18,13 +18,17 @@ CHECKS = {
          "ordered list of order-isomorphic index tuples, each once; containment/avoidance/count corollaries; memo-table history "
          "independence by induction over search histories. The model is tied to the code by exhaustive comparison of all pairs "
          "|pattern|<=4,|perm|<=7 (thorough 5/8) and planted random cases, plus an independent brute-force oracle.",
-         "left_floor_and_ceiling modelled by its arg-max specification; coloured occurrences correspondence-only.", "5/C01"),
+         "The rotating-deque code of left_floor_and_ceiling is modelled literally (termination of its three while loops proved for every input) "
+         "and proved equal to the arg-max floor/ceiling; coloured occurrences proved equal to the colour-filtered spec list.", "5/C01"),
  "C02": ("Lean 4 model of the Av level cache/builder + insertion-criterion theorem; correspondence on query histories incl. iterators and cache clearing",
          "The class builder (end-insertion windows, shared spot lists, compaction), class cache and lazily evaluated iterators are "
          "modelled as an explicit process state machine; proved: the window-of-deletions insertion criterion for all bases/permutations. "
          "Every history line (constructions, count/of_length/in/up_to_length/first/enumeration/is_subclass/clear_cache, partially consumed "
          "iterators) is run on the real Av, on the model and on a brute-force oracle of the property text.",
-         "cache invariant / refinement theorems in progress (see evidence.partial); mesh basis pruning is C05's subject.", "5/C02"),
+         "Proved: cache invariant preserved by every level build (buildOne_correct), ensureLevel/getLevel return the spec level after ANY history "
+         "(levels_history_independent), process-level refinement over arbitrary op sequences incl. clear_cache, other classes and partially consumed "
+         "iterators (av_refines_spec, iterators_harmless, first_correct, upTo_iter_correct), is_subclass_correct for classical bases. "
+         "One known finding (first(k) on mesh classes with an empty level followed by non-empty ones); mesh basis pruning is C05's subject.", "5/C02"),
  "C04": ("Lean 4 theorems: dihedral relations, containment equivariance (classical and mesh), orbits, lex_min invariance + correspondence",
          "Proved for all permutations, meshes and integer rotation counts: the group relations (including mesh cell maps), "
          "Contains (g s) (g p) <-> Contains s p and the mesh analogue for all eight symmetries, all_syms = orbit, lex_min constant on orbits. "
@@ -53,7 +57,22 @@ CHECKS = {
          "Threads are modelled as a small-step machine over the C02 cache model (acquire, one write per shared mutation, release, read); real "
          "threads run the real methods under a seeded deterministic scheduler (settrace pre-emption at every line of permset.py, scheduler-aware "
          "lock), and results and final cache are compared with the model run in the observed acquisition order and with the sequential oracle.",
-         "schedule-induction theorem in progress (see evidence.partial); atomicity of single CPython container operations is assumed.", "5/C07"),
+         "Proved for every number of threads, every assignment of queries and EVERY schedule: mutual exclusion, every visible level is the "
+         "spec level at every moment (also mid-build/mid-compaction), no thread fails, every read returns the spec level (av_concurrent_correct, "
+         "instantiated with the C02 cache invariant); the lock discipline is extracted from the AST each run. Atomicity of single CPython "
+         "container operations is assumed; progress needs a fairness assumption and is not stated.", "5/C07"),
+ "C12": ("Lean 4 theorems: sorting code = device, sortable <-> identity <-> pattern classes (Knuth), counters = least number of passes, Simion-Schmidt bijection, dihedral/alternating families + correspondence",
+         "Proved for all permutations: stack/bubble/pop/quick sort code equals one pass of the device; sortable iff output is the identity iff "
+         "Av(231) / Av(231,321) / Av(231,312); counters terminate with the least k; West-k iff count<=k; Simion-Schmidt is a bijection "
+         "Av_n(123)->Av_n(132) fixing left-to-right minima, undone by its inverse, rejecting other inputs; dihedral group = n-gon symmetries; "
+         "alternating = even parity (n>=3); family pattern tables regenerated from perm_properties.py. Exhaustive correspondence |s|<=8.",
+         "quick-sortable/West-2/Baxter/simsun/forest-like/Greene characterisations are bounded tests (evidence.partial).", "5/C12"),
+ "C18": ("Lean 4 theorems: NE shading lemma and its rotations (can_shade/can_simul_shade/shadable_boxes sound for ALL permutations), add_point semantics, region lookups, ascii_plot round trip + correspondence with semantic brute-force oracle",
+         "Proved for all meshes, cells and ALL permutations: a licensed shading does not change the set of containing permutations (single, "
+         "simultaneous, table); add_point(mu,(x,y),d) is contained exactly in the permutations with an occurrence of mu having a point in the cell; "
+         "is_shaded/is_pointfree/has_anchored_point/non_pointless_boxes are their region definitions; parsePlot(ascii_plot mu) = mu. "
+         "Exhaustive correspondence over all 1042 meshes of length <=2 x all cells/pairs/directions with an independent oracle over all permutations <=6.",
+         "plot round trip proved for cell size 1 only.", "5/C18"),
 }
 
 PENDING = {}
